@@ -135,25 +135,31 @@ inline std::string unwords(const Value& a)
 }
 
 // ------------------------------------------------------------------ locators
+// names of the locator types in the order of the enumeration ELoc (values 0..28), as in PtrGeos.cpp
+static const char* LOCNAMES[] = {"x", "z", "v", "f", "g", "lower", "upper", "p", "w", "code", "sel", "dom", "dblk", "adir", "adip", "size",
+                                 "bu", "bd", "time", "layer", "nostat", "tangent", "ncsimu", "facies", "gausfac", "date", "rklow", "rkup", "sum"};
+static const bool LOCUNIQUE[] = {0, 0, 0, 0, 0, 0, 0, 0, 1, 1, 1, 1, 0, 1, 1, 1, 1, 1, 0, 1, 0, 0, 0, 0, 0, 1, 0, 0, 0};
 inline bool parseLoc(const std::string& t, ELoc& type, int& idx)
 {
   if (t == "NA") return false;
   size_t k = 0;
   while (k < t.size() && !isdigit((unsigned char)t[k])) k++;
   std::string key = t.substr(0, k);
-  for (auto& c : key) c = (char)toupper(c);
-  type = ELoc::fromKey(key);
-  idx = k < t.size() ? atoi(t.c_str() + k) - 1 : 0;
-  return type != ELoc::UNKNOWN;
+  for (int i = 0; i < 29; i++)
+    if (key == LOCNAMES[i])
+    {
+      type = ELoc::fromValue(i);
+      idx = k < t.size() ? atoi(t.c_str() + k) - 1 : 0;
+      return true;
+    }
+  return false;
 }
 inline std::string locName(const ELoc& type, int idx)
 {
-  if (type == ELoc::UNKNOWN) return "NA";
-  std::string key{type.getKey()};
-  for (auto& c : key) c = (char)tolower(c);
-  static const std::set<std::string> uniq = {"w", "code", "sel", "dom", "adir", "adip", "size", "bu", "bd", "layer", "date"};
-  if (uniq.count(key)) return key;
-  return key + std::to_string(idx + 1);
+  int i = type.getValue();
+  if (type == ELoc::UNKNOWN || i < 0 || i >= 29) return "NA";
+  if (LOCUNIQUE[i]) return LOCNAMES[i];
+  return std::string(LOCNAMES[i]) + std::to_string(idx + 1);
 }
 
 // ------------------------------------------------------------------ handlers
